@@ -108,7 +108,15 @@ SYS_RATE = 0.12
 
 
 def apply(pool, op, systems=None):
-    """Apply one op to the real pool; return outcome string."""
+    """Apply one op to the real pool; return outcome string.  An exception the API does not document
+    for the operation (the model never produces it) is an outcome of its own, never a harness crash."""
+    try:
+        return _apply(pool, op, systems)
+    except Exception as e:  # noqa
+        return 'crash:%s' % type(e).__name__
+
+
+def _apply(pool, op, systems=None):
     kind = op[0]
     if kind in SYS_OPS:
         return apply_sys(pool, systems, op)
@@ -510,6 +518,8 @@ def run_sequence(ops):
             target = sys_before[op[1]][0] if op[1] < len(sys_before) and sys_before[op[1]] else None
         else:
             target = op[1]
+        if out.startswith('crash:'):
+            errs.append('step %d %s raised an undocumented %s' % (step, op[0], out[6:]))
         for k, b in enumerate(before):
             if k != target and after[k] != b:
                 errs.append('step %d %s on molecule %s changed molecule %d' % (step, op[0], target, k))
